@@ -29,8 +29,10 @@ ASSUMPTIONS = [
     "iterators as values (stateful; see DESIGN.md C15 residual), dict keys that are not str",
     "oracles supplied per case from CPython: float(s) of every Int/Float literal text, str(x) of every float in a "
     "value, sys.get_int_max_str_digits()",
-    "MODEL REPAIRS (the model describes the behaviour the property demands, the check reports the implementation): "
-    "a Float literal whose value overflows binary64 (1e999) is invalid",
+    "the model rejects a Float literal whose value overflows binary64 (1e999), as the property demands (finite Float); "
+    "the implementation returned inf until /repo b2d1c64; regression case corpus/C15/float-literal-overflow.json runs first",
+    "memoised coerced defaults: the model has no memo; the same schema object serves all cases of a schema and every "
+    "value is coerced twice, so a memo that changed results would show as a disagreement",
     "compared: valid/invalid/raises, the coerced value (dicts as unordered maps, ints exact, floats exact), the set of "
     "error paths of validation, the literal of value_to_literal (object fields as a map); never messages",
 ]
@@ -1247,7 +1249,7 @@ def run(tier):
     R = Runner(ck, m)
     quick = tier == "quick"
     gen = Gen(ck.rng, thorough=not quick)
-    n_schemas = 100 if quick else 900
+    n_schemas = 100 if quick else 2000
     n_val, n_lit, n_var = (60, 60, 12) if quick else (120, 120, 25)
     ck.rule = (f"{n_schemas} generated schemas (1-2 enums, 2-4 input objects incl. recursive and OneOf ones, literal defaults, "
                f"mostly valid, ~4% invalid) + fixed ones; per schema {n_val} (type, value) pairs, {n_lit} (type, literal, variables) "
@@ -1256,7 +1258,8 @@ def run(tier):
                "fields, Undefined entries, null under non-null, missing variables). Each pair through coerce_input_value, "
                "validate_input_value, value_to_literal (+ coerce_input_literal of the literal), coerce_input_literal / "
                "validate_input_literal with and without variable values, validate(.., [ValuesOfCorrectTypeRule]) on "
-               "f(x: <const>), get_variable_values; compared with the extracted model and against the property predicates. "
+               "f(x: <const>), get_variable_values, and execute_sync of f(x: <literal>) with the variables (the argument the resolver "
+               "receives); compared with the extracted model and against the property predicates. "
                "non-trivial = value/literal is not null/Undefined (variables: at least one definition)")
     if not echo(ck, m, gen, FIXED_SCHEMAS[0]):
         return ck.finish()
